@@ -9,10 +9,14 @@ Definition qnear (a b : Q) : bool :=
   Qle_bool (Qabs (a - b)) ((1 # 1000000000) * (if Qle_bool 1 (Qabs b) then Qabs b else 1)).
 Definition v_near := list_eqb qnear.
 
+Definition lin_matrix (F : fits) : list qvec := zip2 (fun cd row => map (Qmult cd) row) (cdelt F) (pc F).
+
 Definition agree (c : case) : bool :=
   match unwrap (F0 c, repeat false (length (crpix (F0 c)))) (steps c), impl c with
   | Ok (F, d), OOk F' d' =>
-      v_near (crpix F') (crpix F) && v_near (cdelt F') (cdelt F) && list_eqb v_near (pc F') (pc F)
+      (* the linear part is compared as the product matrix cdelt_i * pc_ij, which is what a FITS WCS
+         means by its CDELT+PC or by its CD representation *)
+      v_near (crpix F') (crpix F) && list_eqb v_near (lin_matrix F') (lin_matrix F)
       && list_eqb Z.eqb (naxis F') (naxis F) && list_eqb Bool.eqb d' d
   | Err _, OErr _ => true
   | _, _ => false
